@@ -213,6 +213,14 @@ func (ef *Filter) Process(ctx context.Context, e *eventlogger.Event) (*eventlogg
 	switch payloadValue.Kind() {
 	case reflect.Ptr, reflect.Interface:
 		payloadValue = reflect.ValueOf(e.Payload).Elem()
+		if payloadValue.Kind() == reflect.Map {
+			// a pointer to a taggable map: work on the map itself, which is
+			// what gets tracked below (tracking the pointer as well would
+			// have the map filtered a second time, as if it had no tags).
+			if t, ok := payloadValue.Interface().(Taggable); ok {
+				taggedInterface = t
+			}
+		}
 	}
 
 	pType := payloadValue.Type()
